@@ -32,33 +32,33 @@ theorem foldlM_ind {ε σ α} (f : σ → α → Except ε σ) (I : List α → 
 
 /-! ### inversion of `finish` -/
 
-inductive FinishCase {π β} (pl : Plug π β) (head : Nat) (st : St β) (c : Nat) (cm : Commit π) (fr : List Nat) :
-    St β → Prop
-  | irrelevant : cm.isMatch = false → pl.rel = false → fr = [] →
-      FinishCase pl head st c cm fr { st with rp := st.rp.addDone c }
+inductive FinishCase {π β} (pl : Plug π β) (head : Nat) (rel : List Nat) (st : St β) (c : Nat) (cm : Commit π)
+    (fr : List Nat) : St β → Prop
+  | irrelevant : cm.isMatch = false → rel = [] → fr = [] →
+      FinishCase pl head rel st c cm fr { st with rp := st.rp.addDone c }
   | build (bpar : List (Nat × List Nat)) (new pb : List Nat) (pbs : List (RB β)) (bumps : β) (bn : BN)
       (na : List Nat) :
       (cm.tags ≠ [] ∨ c = head) → findNew st.rp st.br fr = .ok (bpar, new, pb) →
-      buildsOf st.rp pb = some pbs → pl.mkBumps cm.pins (pbs.map (·.bumps)) = .ok bumps →
+      buildsOf st.rp pb = some pbs → pl.mkBumps rel cm.pins (pbs.map (·.bumps)) = .ok bumps →
       (cm.isMatch = true ∨ new ≠ [] ∨ pl.nonTrivial bumps = true ∨ 1 < pb.length) →
       (buildNums cm (c == head)).head? = some bn → newAncestors st.br.anc pb [] = .ok na →
-      FinishCase pl head st c cm fr
-        (st.addBuild { commit := c, parents := fr, explicit := cm.isMatch, bns := buildNums cm (c == head) }
+      FinishCase pl head rel st c cm fr
+        (st.addBuild { commit := c, parents := fr, explicit := cm.isMatch, bns := buildNums cm (c == head), time := cm.time }
           bn bpar new pb bumps na)
   | skip (bpar : List (Nat × List Nat)) (new pb : List Nat) (pbs : List (RB β)) (bumps : β) :
-      (cm.tags ≠ [] ∨ c = head) → (pl.rel = true ∨ fr ≠ []) → findNew st.rp st.br fr = .ok (bpar, new, pb) →
+      (cm.tags ≠ [] ∨ c = head) → (rel ≠ [] ∨ fr ≠ []) → findNew st.rp st.br fr = .ok (bpar, new, pb) →
       cm.isMatch = false → new = [] → pb.length ≤ 1 →
-      buildsOf st.rp pb = some pbs → pl.mkBumps cm.pins (pbs.map (·.bumps)) = .ok bumps →
+      buildsOf st.rp pb = some pbs → pl.mkBumps rel cm.pins (pbs.map (·.bumps)) = .ok bumps →
       pl.nonTrivial bumps = false →
-      FinishCase pl head st c cm fr (st.skipBuild c fr (buildNums cm (c == head)) bpar pb)
+      FinishCase pl head rel st c cm fr (st.skipBuild c fr (buildNums cm (c == head)) bpar pb)
   | plainMatch : cm.tags = [] → c ≠ head → cm.isMatch = true →
-      FinishCase pl head st c cm fr
-        { st with rp := st.rp.addRC { commit := c, parents := fr, explicit := true, bns := [] } }
-  | plain : cm.tags = [] → c ≠ head → cm.isMatch = false → (pl.rel = true ∨ fr ≠ []) →
-      FinishCase pl head st c cm fr { st with rp := st.rp.addPlain c fr }
+      FinishCase pl head rel st c cm fr
+        { st with rp := st.rp.addRC { commit := c, parents := fr, explicit := true, bns := [], time := cm.time } }
+  | plain : cm.tags = [] → c ≠ head → cm.isMatch = false → (rel ≠ [] ∨ fr ≠ []) →
+      FinishCase pl head rel st c cm fr { st with rp := st.rp.addPlain c fr }
 
-theorem finish_cases {π β} {pl : Plug π β} {head : Nat} {st : St β} {c : Nat} {cm : Commit π} {fr : List Nat}
-    {st' : St β} (hf : finish pl head st c cm fr = .ok st') : FinishCase pl head st c cm fr st' := by
+theorem finish_cases {π β} {pl : Plug π β} {head : Nat} {rel : List Nat} {st : St β} {c : Nat} {cm : Commit π}
+    {fr : List Nat} {st' : St β} (hf : finish pl head rel st c cm fr = .ok st') : FinishCase pl head rel st c cm fr st' := by
   unfold finish at hf
   split at hf
   · rename_i h0
@@ -66,13 +66,13 @@ theorem finish_cases {π β} {pl : Plug π β} {head : Nat} {st : St β} {c : Na
     simp at h0
     exact .irrelevant h0.1.1 h0.1.2 h0.2
   · rename_i h0
-    have h0' : cm.isMatch = true ∨ pl.rel = true ∨ fr ≠ [] := by
+    have h0' : cm.isMatch = true ∨ rel ≠ [] ∨ fr ≠ [] := by
       simp at h0
       by_cases h1 : cm.isMatch = true
       · exact Or.inl h1
-      · by_cases h2 : pl.rel = true
+      · by_cases h2 : rel = []
+        · exact Or.inr (Or.inr (h0 (by simpa using h1) h2))
         · exact Or.inr (Or.inl h2)
-        · exact Or.inr (Or.inr (h0 (by simpa using h1) (by simpa using h2)))
     split at hf
     · rename_i h1
       have h1' : cm.tags ≠ [] ∨ c = head := by
@@ -164,7 +164,7 @@ theorem classify_builds {β} (rp : Repo β) (bs : List (RB β)) (x : Nat) :
     classify { rp with builds := bs } x = classify rp x := rfl
 
 theorem finish_classify_ne {π β} {pl : Plug π β} {head : Nat} {st : St β} {c : Nat} {cm : Commit π}
-    {fr : List Nat} {st' : St β} (hf : finish pl head st c cm fr = .ok st') (x : Nat) (hne : x ≠ c) :
+    {fr : List Nat} {st' : St β} {rel : List Nat} (hf : finish pl head rel st c cm fr = .ok st') (x : Nat) (hne : x ≠ c) :
     classify st'.rp x = classify st.rp x := by
   cases finish_cases hf with
   | irrelevant => exact classify_addDone_ne _ _ _ hne
@@ -196,13 +196,13 @@ theorem Hist.topo_of_topoB {π} (h : Hist π) (hb : h.topoB = true) : h.Topo := 
   simpa using (List.all_eq_true.mp this) p hp
 
 theorem visit_frame {π β} {h : Hist π} (hT : h.Topo) (pl : Plug π β) (head : Nat) :
-    ∀ (fuel : Nat) (s : St β) (acc : List Nat) (c : Nat) (s' : St β) (acc' : List Nat),
-      visit h pl head fuel (s, acc) c = .ok (s', acc') → ∀ x, c < x → classify s'.rp x = classify s.rp x := by
+    ∀ (fuel : Nat) {rel : List Nat} (s : St β) (acc : List Nat) (c : Nat) (s' : St β) (acc' : List Nat),
+      visit h pl head fuel rel (s, acc) c = .ok (s', acc') → ∀ x, c < x → classify s'.rp x = classify s.rp x := by
   intro fuel
   induction fuel with
-  | zero => intro s acc c s' acc' hv; simp [visit] at hv
+  | zero => intro rel s acc c s' acc' hv; simp [visit] at hv
   | succ fuel ih =>
-    intro s acc c s' acc' hv x hx
+    intro rel s acc c s' acc' hv x hx
     rw [visit] at hv
     split at hv
     · cases hv; rfl
@@ -212,7 +212,7 @@ theorem visit_frame {π β} {h : Hist π} (hT : h.Topo) (pl : Plug π β) (head 
         split at hv
         · cases hv
         · rename_i st1 fr hfold
-          have h1 := foldlM_ind (visit h pl head fuel)
+          have h1 := foldlM_ind (visit h pl head fuel (pl.relStep cm.time rel))
             (fun _ (sa : St β × List Nat) => classify sa.1.rp x = classify s.rp x) (fun p => p < c)
             (by
               intro ds' sa a sa' hI hG hstep
@@ -374,7 +374,20 @@ variable (P : St β → Prop) (Q : St β → List Nat → List Nat → Prop) (R 
 
 /-- what has to be shown about one step for an invariant of the DFS:
 `P` state invariant, `Q s ds acc` relates the accumulated `rc_parents` to the children `ds` examined so far,
-`R` how the state may grow, `V` what is known about every commit the DFS looks at. -/
+`R` how the state may grow, `V` what is known about every commit the DFS looks at, `L` what is known about the
+relevant components handed down the DFS. -/
+structure VisitHypsL (L : List Nat → Prop) : Prop where
+  Rrefl : ∀ s, R s s
+  Rtrans : ∀ {a b c}, R a b → R b c → R a c
+  Qmono : ∀ {s s' ds acc}, P s → P s' → R s s' → Q s ds acc → Q s' ds acc
+  Qnil : ∀ s, P s → Q s [] []
+  Qcls : ∀ {s ds acc c cl}, P s → Q s ds acc → V c → classify s.rp c = some cl → Q s (ds ++ [c]) (addCls acc cl)
+  Vstep : ∀ {c cm p}, V c → h.commits[c]? = some cm → p ∈ cm.parents → V p
+  Lstep : ∀ {rel c cm}, L rel → V c → h.commits[c]? = some cm → L (pl.relStep cm.time rel)
+  Hfin : ∀ {rel s c cm fr s'}, L rel → P s → V c → classify s.rp c = none → h.commits[c]? = some cm →
+      Q s cm.parents.reverse fr → finish pl head rel s c cm fr = .ok s' → P s' ∧ R s s'
+
+/-- the same without knowledge about the relevant components -/
 structure VisitHyps : Prop where
   Rrefl : ∀ s, R s s
   Rtrans : ∀ {a b c}, R a b → R b c → R a c
@@ -382,20 +395,20 @@ structure VisitHyps : Prop where
   Qnil : ∀ s, P s → Q s [] []
   Qcls : ∀ {s ds acc c cl}, P s → Q s ds acc → V c → classify s.rp c = some cl → Q s (ds ++ [c]) (addCls acc cl)
   Vstep : ∀ {c cm p}, V c → h.commits[c]? = some cm → p ∈ cm.parents → V p
-  Hfin : ∀ {s c cm fr s'}, P s → V c → classify s.rp c = none → h.commits[c]? = some cm →
-      Q s cm.parents.reverse fr → finish pl head s c cm fr = .ok s' → P s' ∧ R s s'
+  Hfin : ∀ {rel s c cm fr s'}, P s → V c → classify s.rp c = none → h.commits[c]? = some cm →
+      Q s cm.parents.reverse fr → finish pl head rel s c cm fr = .ok s' → P s' ∧ R s s'
 
 variable {h pl head P Q R V}
 
-theorem visit_ind (hT : h.Topo) (H : VisitHyps h pl head P Q R V) :
-    ∀ (fuel : Nat) (s : St β) (ds acc : List Nat) (c : Nat) (s' : St β) (acc' : List Nat),
-      P s → Q s ds acc → V c → visit h pl head fuel (s, acc) c = .ok (s', acc') →
+theorem visit_indL {L : List Nat → Prop} (hT : h.Topo) (H : VisitHypsL h pl head P Q R V L) :
+    ∀ (fuel : Nat) {rel : List Nat} (s : St β) (ds acc : List Nat) (c : Nat) (s' : St β) (acc' : List Nat),
+      L rel → P s → Q s ds acc → V c → visit h pl head fuel rel (s, acc) c = .ok (s', acc') →
       P s' ∧ Q s' (ds ++ [c]) acc' ∧ R s s' := by
   intro fuel
   induction fuel with
-  | zero => intro s ds acc c s' acc' _ _ _ hv; simp [visit] at hv
+  | zero => intro rel s ds acc c s' acc' _ _ _ _ hv; simp [visit] at hv
   | succ fuel ih =>
-    intro s ds acc c s' acc' hP hQ hV hv
+    intro rel s ds acc c s' acc' hL hP hQ hV hv
     rw [visit] at hv
     split at hv
     · rename_i cl hcl
@@ -405,17 +418,18 @@ theorem visit_ind (hT : h.Topo) (H : VisitHyps h pl head P Q R V) :
       split at hv
       · cases hv
       · rename_i cm hcm
+        have hL' := H.Lstep hL hV hcm
         split at hv
         · cases hv
         · rename_i st1 fr hfold
           -- the fold over the parents
-          have hfoldI := foldlM_ind (visit h pl head fuel)
+          have hfoldI := foldlM_ind (visit h pl head fuel (pl.relStep cm.time rel))
             (fun ds' (sa : St β × List Nat) => P sa.1 ∧ Q sa.1 ds' sa.2 ∧ R s sa.1) V
             (by
               intro ds' sa a sa' hI hG hstep
               obtain ⟨s1, a1⟩ := sa
               obtain ⟨s2, a2⟩ := sa'
-              obtain ⟨hP2, hQ2, hR2⟩ := ih s1 ds' a1 a s2 a2 hI.1 hI.2.1 hG hstep
+              obtain ⟨hP2, hQ2, hR2⟩ := ih s1 ds' a1 a s2 a2 hL' hI.1 hI.2.1 hG hstep
               exact ⟨hP2, hQ2, H.Rtrans hI.2.2 hR2⟩)
             cm.parents.reverse [] (s, []) (st1, fr) ⟨hP, H.Qnil s hP, H.Rrefl s⟩
             (by intro a ha; exact H.Vstep hV hcm (List.mem_reverse.mp ha)) hfold
@@ -425,7 +439,7 @@ theorem visit_ind (hT : h.Topo) (H : VisitHyps h pl head P Q R V) :
           · cases hv
           · rename_i st2 hfin
             have hcl1 : classify st1.rp c = none := by
-              have h1 := foldlM_ind (visit h pl head fuel)
+              have h1 := foldlM_ind (visit h pl head fuel (pl.relStep cm.time rel))
                 (fun _ (sa : St β × List Nat) => classify sa.1.rp c = classify s.rp c) (fun p => p < c)
                 (by
                   intro ds' sa a sa' hI hG hstep
@@ -437,7 +451,7 @@ theorem visit_ind (hT : h.Topo) (H : VisitHyps h pl head P Q R V) :
                 (by intro a ha; exact hT c cm hcm a (List.mem_reverse.mp ha)) hfold
               simp only at h1
               rw [h1]; exact hcl
-            · obtain ⟨hP2, hR2⟩ := H.Hfin hP1 hV hcl1 hcm hQ1 hfin
+            · obtain ⟨hP2, hR2⟩ := H.Hfin hL' hP1 hV hcl1 hcm hQ1 hfin
               split at hv
               · rename_i cl hcl2
                 cases hv
@@ -445,6 +459,32 @@ theorem visit_ind (hT : h.Topo) (H : VisitHyps h pl head P Q R V) :
                 exact ⟨hP2, H.Qcls hP2 (H.Qmono hP hP2 hR hQ) hV hcl2, hR⟩
               · cases hv
 
+theorem visit_ind (hT : h.Topo) (H : VisitHyps h pl head P Q R V) :
+    ∀ (fuel : Nat) {rel : List Nat} (s : St β) (ds acc : List Nat) (c : Nat) (s' : St β) (acc' : List Nat),
+      P s → Q s ds acc → V c → visit h pl head fuel rel (s, acc) c = .ok (s', acc') →
+      P s' ∧ Q s' (ds ++ [c]) acc' ∧ R s s' := by
+  intro fuel rel s ds acc c s' acc' hP hQ hV hv
+  have HL : VisitHypsL h pl head P Q R V (fun _ => True) :=
+    { Rrefl := H.Rrefl, Rtrans := H.Rtrans, Qmono := H.Qmono, Qnil := H.Qnil, Qcls := H.Qcls, Vstep := H.Vstep
+      Lstep := fun _ _ _ => trivial
+      Hfin := fun _ hP hV hcl hcm hQ hf => H.Hfin hP hV hcl hcm hQ hf }
+  exact visit_indL hT HL fuel s ds acc c s' acc' trivial hP hQ hV hv
+
 end VisitInd
+
+/-- `L` holds for the relevant-component sets handed down every DFS of the history: for the candidates computed at a
+branch head and, from a set to the set of a commit below -/
+structure RelInv {π β} (h : Hist π) (pl : Plug π β) (L : List Nat → Prop) : Prop where
+  init : ∀ (c : Nat) (cm : Commit π), h.commits[c]? = some cm → L (pl.relStep cm.time pl.relInit)
+  step : ∀ (rel : List Nat) (c : Nat) (cm : Commit π), L rel → h.commits[c]? = some cm → L (pl.relStep cm.time rel)
+
+theorem RelInv.trivial {π β} (h : Hist π) (pl : Plug π β) : RelInv h pl (fun _ => True) :=
+  ⟨fun _ _ _ => True.intro, fun _ _ _ _ _ => True.intro⟩
+
+/-- inside the component cut-off window every component with reported builds stays relevant -/
+theorem RelInv.full {π β} {h : Hist π} {pl : Plug π β}
+    (hfull : ∀ (c : Nat) (cm : Commit π), h.commits[c]? = some cm → pl.relStep cm.time pl.relInit = pl.relInit) :
+    RelInv h pl (fun rel => rel = pl.relInit) :=
+  ⟨fun c cm hcm => hfull c cm hcm, fun rel c cm hr hcm => by rw [hr]; exact hfull c cm hcm⟩
 
 end Ghist
